@@ -84,7 +84,7 @@ def one(sh, case, driver='generated'):
 
 def run(sh):
     rng = gen.rng_for(sh.seed, PROP, sh.shard)
-    K = 50 if sh.tier == 'quick' else 3000
+    K = 50 if sh.tier == 'quick' else 9000
     for it in range(K):
         one(sh, gen_case(rng, sh.tier))
     for k, v in attach.COUNTS.items():
